@@ -36,6 +36,7 @@ RULE = (
 
 def gen_case(rng, tier):
     prof = G.default_profile(rng, tier)
+    prof["relaunch"] = rng.choice([0, 0, 0.2])
     ast = G.AccfgGen(rng, prof).program()
     return {"ast": ast, "envs": gen_envs(rng, K_ENVS[tier]), "hoist": rng.random() < 0.7}
 
